@@ -23,12 +23,15 @@ def unh(s):
     return None if s is None else bytes.fromhex(s)
 
 
-def coq_check(pid, header, case_type, terms, preds, name="Cases", chunk=2500, timeout=900):
-    """Like vlib.coq_check_cases, but compiles with -noglob (case files are large)."""
+def coq_check(pid, header, case_type, terms, preds, name="Cases", chunk=1000, timeout=900, jobs=6):
+    """Like vlib.coq_check_cases, but compiles with -noglob (case files are large) and runs the
+    chunks in parallel."""
+    from concurrent.futures import ThreadPoolExecutor
     res = {k: [] for k in preds}
     d = os.path.join(vlib.WORK, "coqrun", pid)
     os.makedirs(d, exist_ok=True)
-    for off in range(0, len(terms), chunk):
+
+    def one(off):
         part = terms[off:off + chunk]
         src = header + "\nDefinition verif_cases : list (%s) := [\n%s].\n" % (case_type, ";\n".join(part))
         src += ("Fixpoint verif_failing {A} (f : A -> bool) (n : nat) (l : list A) : list nat :=\n"
@@ -42,9 +45,19 @@ def coq_check(pid, header, case_type, terms, preds, name="Cases", chunk=2500, ti
         rc, out = vlib.sh(["timeout", str(timeout), "coqc", "-noglob", "-Q", os.path.join(vlib.COQ, "theories"), "Arc",
                            "-Q", os.path.join(vlib.COQ, "gen"), "ArcGen", "-w", "-notation-overridden", p], cwd=d, timeout=timeout + 30)
         vlib.log("coqc %s_%d (%d cases): rc=%d in %.1fs" % (name, off, len(part), rc, time.time() - t0))
+        r = {}
         for label in preds:
             lst = vlib.parse_nat_list(out, "verif_" + label)
             if rc != 0 or lst is None:
                 raise vlib.InfraError("case evaluation failed (%s): %s" % (label, out[-2500:]))
-            res[label] += [off + x for x in lst]
+            r[label] = [off + x for x in lst]
+        return r
+
+    offs = list(range(0, len(terms), chunk))
+    with ThreadPoolExecutor(max_workers=jobs) as ex:
+        for r in ex.map(one, offs):
+            for label in preds:
+                res[label] += r[label]
+    for label in preds:
+        res[label].sort()
     return res
